@@ -469,6 +469,14 @@ impl Sched {
         let mut branch = false;
         let sig_forced = enabled.contains(&TID_SIG)
             && matches!(self.threads[TID_SIG].state, TState::Pending(Op::SigWait));
+        if sig_forced && sigint_disposition() == 1 {
+            // the program has put SIGINT back to its default disposition (recorded by the preload shim): this Ctrl-C ends the
+            // process here and now, no handler, no clean-up
+            let line = format!("G {} signal_default_action disposition_reset", self.steps);
+            self.tr(&line);
+            self.flush();
+            unsafe { _exit(EXIT_SIGINT_DEFAULT_ACTION) }
+        }
         if sig_forced {
             chosen = TID_SIG;
         } else if enabled.len() == 1 {
@@ -765,4 +773,19 @@ pub fn process_exit(code: i32) {
         s.exited = true;
         s.flush();
     });
+}
+
+/// what the program last did to SIGINT's disposition, as recorded by the preload shim (0 when the shim is absent)
+fn sigint_disposition() -> i32 {
+    extern "C" {
+        fn dlsym(handle: *mut std::ffi::c_void, symbol: *const std::os::raw::c_char) -> *mut std::ffi::c_void;
+    }
+    unsafe {
+        let p = dlsym(std::ptr::null_mut(), b"s4sim_sigint_disposition\0".as_ptr() as *const std::os::raw::c_char);
+        if p.is_null() {
+            return 0;
+        }
+        let f: extern "C" fn() -> i32 = std::mem::transmute(p);
+        f()
+    }
 }
